@@ -14,8 +14,19 @@ A *case* is a JSON object::
      "inclose": null|"msg"|"close"|"ping"|"prepared"|"stream"|"raise"|"all",   # what the app does from INSIDE onClose
      "onc_raise": reason-key,                         # client: onConnect() raises RuntimeError(REASONS[key]) -> the LIBRARY
                                                       # fails the connection with a reason text it derives from the exception
-     "pmce": bool}                                    # permessage-deflate negotiated (only to reach the library's long
+     "pmce": bool,                                    # permessage-deflate negotiated (only to reach the library's long
                                                       # "could not decompress ..." failure reason: ["pviol", "badz"])
+     "endgame": null|[kind, interval]}                # bounded closure is judged with a peer that is NOT silent: it keeps
+                                                      # sending (kind: close|closemix|ping|pong|text|frag|mix) every
+                                                      # `interval` seconds of virtual time until the deadline
+
+Event ``["prace", part, ...]`` (parts as for ``pcombo``): the peer's octets are handed to the endpoint when the
+transport's connection-lost notification is ALREADY scheduled in front of whatever the adapter scheduled to consume
+them.  That is the order CPython's proactor transport produces (``_ProactorReadPipeTransport._loop_reading``: re-arming
+the next ``recv_into`` fails with ConnectionResetError -> ``_force_close()`` does ``call_soon(_call_connection_lost)``
+and only then, in ``finally``, the octets of the completed read go to ``data_received()``; likewise a completed read
+that is delivered after the endpoint's own ``close()``/``abort()`` in the same loop iteration).  On Twisted (no
+consumer queue in the adapter) it is dataReceived() immediately followed by connectionLost().
 
 The harness plays the peer with raw octets (``rfc6455_ref.encode_frame``), owns virtual time and
 the transport.  Everything asserted is what the property statement says (see checks/c05.py);
@@ -182,6 +193,12 @@ class Mon:
         self.inclose = case.get("inclose")
         self.state_in_onclose = None
         self.pmce = bool(case.get("pmce"))
+        self.endgame = case.get("endgame")
+        self.hs_complete_t1 = None      # client: virtual time at which the FIRST peer close frame (a valid one) was delivered
+        self.sdt_judged = False
+        self.lost_at = None
+        self.n_raced = 0
+        self.chat_frag = False
 
     # ---- violations -------------------------------------------------------------------------------
     def violation(self, clause, what, **detail):
@@ -498,8 +515,8 @@ class Mon:
             fed += len(c)
         return fed
 
-    def feed_frames(self, specs):
-        """specs: list of ('close', kind) | ('raw', bytes) fed as ONE write of the peer."""
+    def feed_frames(self, specs, raced=False):
+        """specs: list of ('close', kind) | ('raw', bytes) fed as ONE write of the peer.  raced: see feed_raced()."""
         self.scan_output()
         data = b""
         closes = []
@@ -515,11 +532,98 @@ class Mon:
             # not received as a WebSocket frame: fed before / instead of the opening handshake.  (While the server's
             # asynchronous onConnect() result is pending the frame is buffered and processed once the handshake completes.)
             closes = []
+        if raced:
+            self.feed_raced(data, closes)
+            return
         fed = self.feed(data, "peer-close" if closes else "peer-frames")
         for c in closes:
             if c["end"] <= fed:      # the whole close frame reached the endpoint while its transport was reading
-                self.peer_closes.append(c)
-                self.R.seen("peer_close_kinds_delivered", "%s/%s" % (c["kind"], _state_name(c["state_before"])))
+                self.note_peer_close(c)
+
+    def note_peer_close(self, c):
+        if (self.role == "client" and not self.peer_closes and c["cls"] in ("valid", "empty")
+                and c["state_before"] in (ST_OPEN, ST_CLOSING) and self.hs_complete_t1 is None and not self.ep.lost):
+            # a client has now seen the server's close frame (the first one, and a valid one): from here on only
+            # serverConnectionDropTimeout separates it from dropping the TCP connection itself
+            self.hs_complete_t1 = c["vt"]
+        self.peer_closes.append(c)
+        self.R.seen("peer_close_kinds_delivered", "%s/%s" % (c["kind"], _state_name(c["state_before"])))
+
+    def feed_raced(self, data, closes):
+        """Hand the peer's octets to the endpoint while the connection-lost notification is ALREADY scheduled ahead of
+        whatever the adapter schedules to consume them (see the module docstring: proactor transport order)."""
+        ep = self.ep
+        R = self.R
+        if ep.lost:
+            return
+        self.site = "peer-frames-raced"
+        own = ep.close_requested is not None
+        if self.world.fw == "tx":
+            if self.deliverable():
+                fed = self.feed(data, "peer-frames-raced")
+                for c in closes:
+                    if c["end"] <= fed:
+                        self.note_peer_close(c)
+            self.site = "peer-frames-raced"
+            if own:
+                ep.finish_close()
+            else:
+                ep.peer_close(clean=False)
+            R.count("raced_feeds_tx")
+            return
+        seg = self.case.get("seg", "whole")
+        head = b""
+        if seg == "split2" and len(data) > 1:
+            cut = 1 + (len(data) * 7 // 13) % (len(data) - 1)
+            head, data = data[:cut], data[cut:]
+        elif seg == "bytewise" and len(data) > 1:
+            head, data = data[:-1], data[-1:]
+        if head:
+            if own:
+                return          # selector/proactor transport that is closing: at most the ONE completed read is still delivered
+            fed = self.feed(head, "peer-frames-raced")
+            for c in closes:
+                if c["end"] <= fed:
+                    self.note_peer_close(c)
+            closes = [c for c in closes if c["end"] > fed]
+            if fed < len(head) or ep.lost or ep.close_requested is not None:
+                return
+            self.site = "peer-frames-raced"
+        for c in closes:
+            self.note_peer_close(c)          # handed over completely to data_received() below
+        exc = None if own else ConnectionResetError(10054, "connection reset by peer (re-arming the read failed)")
+        self.world.loop.call_soon(self._aio_connection_lost, exc)
+        ep.log("feed", len(data))
+        self.n_raced += 1
+        R.count("raced_feeds")
+        R.seen("raced_kinds", "%s/%s/%s" % (self.role[:3], "own-close" if own else "reset", _state_name(self.cur_state)))
+        if closes:
+            R.count("raced_peer_close_frames")
+        try:
+            ep.proto.data_received(bytes(data))
+        except Exception as e:
+            ep._escaped("data_received", e)
+        self.world.settle()
+
+    def _aio_connection_lost(self, exc):
+        """AioEndpoint._lose_with() as a loop callback (it must not re-enter the loop)"""
+        ep = self.ep
+        if ep.lost:
+            return
+        if getattr(ep.proto, "receive_queue", None):
+            # evidence only: the interleaving the event exists for was really reached
+            self.R.count("raced_queue_nonempty_at_lost")
+        ep.lost = True
+        ep.lost_reason = exc
+        ep.log("connection_lost", type(exc).__name__ if exc is not None else None)
+        try:
+            ep.transport._closing = True
+        except Exception:
+            pass
+        try:
+            ep.proto.connection_lost(exc)
+        except Exception as e:
+            ep._escaped("connection_lost", e)
 
     # ---- events -----------------------------------------------------------------------------------
     def ev_hs(self):
@@ -725,7 +829,14 @@ class Mon:
         self.feed_frames([("raw", d)])
 
     def ev_pcombo(self, *parts):
-        """several peer frames in ONE read: parts are 'c:<close kind>' | 'text' | 'ping' | 'viol'"""
+        """several peer frames in ONE read: parts are 'c:<close kind>' | 'text' | 'ping' | 'viol' | 'frag' | 'pong'"""
+        self.feed_frames(self.combo_specs(parts))
+
+    def ev_prace(self, *parts):
+        """peer frames handed over when connection-lost is already scheduled (module docstring)"""
+        self.feed_frames(self.combo_specs(parts), raced=True)
+
+    def combo_specs(self, parts):
         specs = []
         for p in parts:
             if p.startswith("c:"):
@@ -736,9 +847,14 @@ class Mon:
                 specs.append(("raw", self.pframe(ref.OP_PING, b"cp")))
             elif p == "viol":
                 specs.append(("raw", self.pframe(3, b"")))
+            elif p == "frag":
+                specs.append(("raw", self.pframe(ref.OP_TEXT if not self.chat_frag else ref.OP_CONT, b"fr", fin=False)))
+                self.chat_frag = True
+            elif p == "pong":
+                specs.append(("raw", self.pframe(ref.OP_PONG, b"cq")))
             else:
                 raise ValueError(p)
-        self.feed_frames(specs)
+        return specs
 
     def ev_tick(self):
         self.site = "timer"
@@ -781,6 +897,43 @@ class Mon:
                                n or detached, name, " [attempted on the detached asyncio transport]" if detached and not n else ""),
                            site=name)
 
+        self.check_server_drop_deadline()
+
+    def check_server_drop_deadline(self):
+        """Client that has seen the server's (valid, first) close frame at t1: serverConnectionDropTimeout seconds later it
+        must have dropped the TCP connection itself - whatever else the server sent in the meantime."""
+        t1 = self.hs_complete_t1
+        if t1 is None or self.sdt_judged or self.sdt <= 0:
+            return
+        ep = self.ep
+        if ep.lost and self.lost_at is None:
+            self.lost_at = next((e[0] for e in ep.events if e[1] == "connection_lost"), self.now())
+        limit = t1 + self.sdt + SDT_SLACK
+        own = ep.close_requested_at
+        if own is not None and (self.lost_at is None or own <= self.lost_at):
+            self.sdt_judged = True
+            self.R.count("sdt_tight_evaluated")
+            if own > limit:
+                self.violation("bounded-closure/server-drop-timeout-exceeded",
+                               "client: the server's close frame was delivered at t=%.3f (closing handshake complete), the server "
+                               "did not drop TCP; with serverConnectionDropTimeout=%d the client dropped the connection only at "
+                               "t=%.3f" % (t1, self.sdt, own), t1=t1, dropped_at=own)
+            else:
+                self.R.count("sdt_tight_own_drop_in_time")
+                if own >= t1 + self.sdt - 1e-6:
+                    self.R.count("sdt_tight_dropped_by_the_timer")
+        elif self.lost_at is not None:
+            self.sdt_judged = True          # the peer / network took the transport away first
+            self.R.count("sdt_tight_preempted_by_transport_loss")
+        elif self.now() > limit:
+            self.sdt_judged = True
+            self.R.count("sdt_tight_evaluated")
+            self.violation("bounded-closure/server-drop-timeout-exceeded",
+                           "client: the server's close frame was delivered at t=%.3f (closing handshake complete), the server did "
+                           "not drop TCP; at t=%.3f (serverConnectionDropTimeout=%d) the client has still not dropped the "
+                           "connection (state %s, pending timers %r)" % (
+                               t1, self.now(), self.sdt, _state_name(self.cur_state), self.world.pending_timers()), t1=t1)
+
     def last_api_site(self, name):
         if name == "res":
             return self.site
@@ -794,7 +947,8 @@ class Mon:
 
     # ---- bounded closure ----------------------------------------------------------------------------
     def bounded_closure(self):
-        """state is CLOSING, transport neither dropped nor lost; the peer is silent from now on."""
+        """state is CLOSING, transport neither dropped nor lost; from now on the peer is silent - or (case['endgame']) keeps
+        sending without ever dropping TCP."""
         R = self.R
         t0 = self.closing_t0
         pcs = self.peer_closes
@@ -804,10 +958,11 @@ class Mon:
             return
         replied_valid = any(p["cls"] in ("valid", "empty") and p["our_closes_before"] == 0 for p in pcs)
         any_peer_close = bool(pcs)
+        eg = self.endgame
         applicable = []
         if not replied_valid:
             applicable.append(("cht", self.cht))
-        if self.role == "client" and any_peer_close:
+        if self.role == "client" and (any_peer_close or (eg and eg[0] in CHATTER_WITH_CLOSE)):
             applicable.append(("sdt", self.sdt))
         if replied_valid:
             phase = "replied-to-peer-close"
@@ -825,11 +980,32 @@ class Mon:
             self.after_event("silence")
             return
         deadline = t0 + sum(v for _, v in applicable) + 1.0
+        fed = 0
+        if eg:
+            # the peer is NOT silent: it keeps sending until the deadline (the bound does not depend on what it sends)
+            kind, dt = eg[0], float(eg[1])
+            k = 0
+            while self.now() + dt < deadline and not self.dropped():
+                self.site = "timer"
+                self.world.advance(dt)
+                self.after_event("silence")
+                if self.dropped() or not self.deliverable():
+                    break
+                n0 = len(self.ep.events)
+                self.step(["pcombo", CHATTER[kind][k % len(CHATTER[kind])]])
+                k += 1
+                if any(e[1] == "feed" for e in self.ep.events[n0:]):
+                    fed += 1
+            R.count("bounded_chatty_frames_fed", fed)
+            R.seen("bounded_chatter", "%s/%s/%s/%s" % (self.role, phase, kind, dt))
         if deadline > self.now():
             self.site = "timer"
             self.world.advance_to(deadline)
         self.after_event("silence")
         R.count("bounded_deadlines_evaluated")
+        if eg and fed:
+            R.count("bounded_chatty_evaluated")
+            phase += "/peer-keeps-sending"
         for k, _ in applicable:
             R.count("bounded_%s_evaluated" % k)
         if not applicable:
@@ -837,9 +1013,10 @@ class Mon:
         self.bounded = (phase, t0, deadline)
         if not self.dropped() or self.cur_state != ST_CLOSED:
             self.violation("bounded-closure/%s" % phase,
-                           "CLOSING since t=%.3f, peer silent; at t=%.3f (= t0 + %s + 1s) the connection is still %s and the "
+                           "CLOSING since t=%.3f, %s; at t=%.3f (= t0 + %s + 1s) the connection is still %s and the "
                            "transport was not dropped (pending timers: %r)" % (
-                               t0, self.now(), "+".join("%s=%d" % a for a in applicable) or "0",
+                               t0, ("peer kept sending %r every %s s (%d reads) but never dropped TCP" % (eg[0], eg[1], fed))
+                               if eg and fed else "peer silent", self.now(), "+".join("%s=%d" % a for a in applicable) or "0",
                                _state_name(self.cur_state), self.world.pending_timers()),
                            phase=phase, applicable=applicable)
         else:
@@ -944,6 +1121,13 @@ class Mon:
             w.close()
 
 
+SDT_SLACK = 0.25        # serverConnectionDropTimeout is armed with txaio.call_later (exact on the virtual clock)
+CHATTER = {
+    "close": ["c:v1000"], "closemix": ["c:v1000", "c:v3000", "c:empty", "c:v1001"], "ping": ["ping"], "pong": ["pong"],
+    "text": ["text"], "frag": ["frag"], "mix": ["ping", "c:v1000nr", "text", "pong", "c:v4999"],
+}
+CHATTER_WITH_CLOSE = ("close", "closemix", "mix")
+
 PAYLOAD_SITE = {b"prepared-payload": "sendPreparedMessage", b"hello": "sendMessage", b"\x00\x01\x02": "sendMessage",
                 b"sync-payload": "sendMessage", b"abc": "sendMessage", b"def": "sendMessage", b"gh": "sendMessage",
                 b"reply": "sendMessage", b"s1": "sendMessageFrame", b"s2s2": "sendMessageFrame", b"": "endMessage"}
@@ -955,7 +1139,7 @@ EVENT_SITE = {
     "prepared": "sendPreparedMessage", "sbegin": "beginMessage", "sframe": "sendMessageFrame", "send": "endMessage",
     "pclose": "peer-close", "pdata": "peer-data", "pping": "peer-ping", "ppong": "peer-pong", "pviol": "peer-violation",
     "pcombo": "peer-frames", "tick": "timer", "adv": "timer", "pdrop": "peer-tcp-drop", "fin": "own-drop-delivered",
-    "hs": "handshake", "res": "async-result",
+    "hs": "handshake", "res": "async-result", "prace": "peer-frames-raced",
 }
 
 
